@@ -3,8 +3,8 @@ package main
 // Test bed for the syncer part of C18: a real syncer.Syncer with
 //   - a ChainManager wrapper that logs handler enter/exit and holds every
 //     SendHeaders handler until the harness opens its gate,
-//   - a PeerStore wrapper that counts allowConnect passages (Banned is called
-//     inside allowConnect's critical section),
+//   - a PeerStore wrapper that counts allowConnect passages (allowConnect looks up the ban list
+//     before it counts the peers),
 //   - raw gateway clients bound to chosen 127.x.y.z source addresses, so that
 //     subnets differ or collide as the scenario wants.
 
